@@ -546,6 +546,9 @@ func (c *control) dirJustify(colon, at bool, params []any) {
 	colinc = c.getIntParam(1, params, 1, true)
 	minpad = c.getIntParam(2, params, 0, true)
 	padchar = c.getCharParam(3, params, []byte{' '})
+	if colinc < 1 {
+		slip.ErrorPanic(c.scope, 0, "colinc directive parameter must be positive at %d of %q", c.pos, c.str)
+	}
 
 	segments, special, pos := c.scanJustify(c.str, c.pos)
 
@@ -1328,6 +1331,9 @@ func (c *control) dirAS(colon, at bool, params []any, p *slip.Printer) {
 	colinc = c.getIntParam(1, params, colinc, true)
 	minpad = c.getIntParam(2, params, minpad, true)
 	padchar = c.getCharParam(3, params, padchar)
+	if colinc < 1 {
+		slip.ErrorPanic(c.scope, 0, "colinc directive parameter must be positive at %d of %q", c.pos, c.str)
+	}
 	for ; 0 < minpad; minpad-- {
 		pad = append(pad, padchar...)
 	}
@@ -1370,7 +1376,7 @@ func (c *control) dirT(colon, at bool, params []any) {
 			start++
 			from = len(c.out) - start
 		}
-		if from == from/colinc*colinc {
+		if colinc == 0 || from == from/colinc*colinc {
 			target = from
 		} else {
 			target = from/colinc*colinc + colinc
@@ -1384,7 +1390,9 @@ func (c *control) dirT(colon, at bool, params []any) {
 			from = len(c.out) - start
 		}
 		target = colnum * colinc
-		if target < from {
+		if colinc == 0 {
+			target = max(colnum, from)
+		} else if target < from {
 			target = from/colinc*colinc + colinc
 		}
 	}
